@@ -1,55 +1,64 @@
 #!/usr/bin/env python3
-"""Regenerates /verif/MANIFEST.json from the table below (developer tool)."""
-import json, re, subprocess
+"""Regenerates /verif/MANIFEST.json (developer tool). Rule-set descriptions come from `rscheck -describe`."""
+import json, subprocess
 
-T = "go/types + go/cfg (+ go/ssa for C19) of x/tools v0.29.0; the reference tables/grammars written in the checker from the Redis sources; library semantics named in the evidence's trusted_base"
-CLAIMED = {
- # id: (technique, level text, level_note, design_ref)
- "C01": ("wire-grammar extraction from the typed AST compared with a reference RDB grammar; constant tables; typed AST patterns; go/cfg dominance (tee capture, checksum-before-trailer)",
-         "Structural necessary conditions of 'the parser yields every key exactly': opcode/type tables, per-opcode and per-type read grammar, payload capture completeness, metadata binding, hash chunk protocol, checksum plumbing, DUMP wrapping order, fixed-width read agreement. Value-level arithmetic (length bits, LZF, integer rendering) is not decided.", T, "DESIGN.md §2 C01"),
- "C02": ("go/cfg path queries (must-pass-through pexpire, key-exists policy arms, route guards, index guards), wire-grammar extraction of the element expansion, typed AST patterns for command/argument mapping and batch/flush pairing",
-         "Structural necessary conditions of 'restore leaves the target key equal to the source key' on every path of RestoreRdbEntry/restoreBigRdbEntry/restoreQuicklistEntry/CompareVersion; equality of logical values is not decided. One genuine defect is recorded as a known finding.", T, "DESIGN.md §2 C02"),
- "C09": ("go/cfg path queries + lockset dataflow + typed AST patterns (lock guard table, wake-on-progress/close must-pass-through, wait-shape dominance, mem/file sibling skeleton, ring-index clamp form)",
-         "Structural necessary conditions of the pipe's FIFO/close/wake-up behaviour are checked on every control-flow path of pkg/libs/io/pipe; not a proof of deadlock freedom or byte equality.", T, "DESIGN.md §2 C09"),
- "C12": ("wire-grammar extraction of writer and reader sides compared with one reference grammar; constant tables across the three copies; typed AST patterns for event wiring and field copies",
-         "Writer/reader agreement: same type ids, same grammar per value type and per file-level opcode, each element wired to the right slot, converters copy every field. Float/int-string/LZF value semantics are not decided.", T, "DESIGN.md §2 C12"),
- "C18": ("go/cfg path queries + lockset dataflow + typed AST patterns (guard table, broadcast-on-progress/close, validity-before-data, range table, sibling skeleton, clamp form)",
-         "Structural necessary conditions of the backlog ring on every path of pkg/libs/io/backlog; byte equality across wrap-arounds is not decided.", T, "DESIGN.md §2 C18"),
- "C19": ("type reachability of password fields + interprocedural SSA value taint (go/ssa) from password sources to log/print/REST/json sinks; sanitizer totality; AST rule for the ill-typed package main",
-         "Secret-flow analysis over the whole module: no value whose type contains or whose data derives from a configured password reaches a log, stdout/stderr, REST or json sink unsanitised. Third-party libraries' own logging is not decided.", T, "DESIGN.md §2 C19"),
+TECH = {
+ "C01": "wire-grammar extraction from the typed AST vs a reference RDB grammar; constant tables; typed AST patterns; go/cfg dominance (tee capture, checksum-before-trailer); mask/shift fingerprint of the length decoder",
+ "C02": "go/cfg path queries (must-pass-through pexpire, key-exists policy arms, route guards, index guards); wire-grammar extraction of the element expansion; typed AST patterns for command/argument mapping and batch/flush pairing; sibling arithmetic fingerprints",
+ "C03": "who-may-access scan over all bodies (single FIFO, one producer/consumer), go/cfg path queries (exactly-one-enqueue, nothing dropped/duplicated, barrier before append), abstract evaluation of the barrier automaton table, payload dataflow",
+ "C04": "go/cfg ordering queries on the MULTI...HSET offset...EXEC envelope, offset provenance dataflow, who-may-write scan of the offset base, resume wiring patterns",
+ "C05": "go/cfg path queries and typed AST patterns (1-byte header reads, one buffered reader per connection, bounded copy with interval reasoning on comparisons, framing and PSYNC reply tables, copy-then-count)",
+ "C06": "decision-table extraction by path enumeration of the loop-free filter predicates vs reference tables; dominance/polarity queries at every application site; who-reads scan of the filter options",
+ "C07": "go/cfg queries on worker literals (private connection state, SELECT/lastdb pairing, wait-for-all, failure reporting), error-discipline engine, loader close ordering",
+ "C08": "accounting-pair rule (cumulative counter added repeatedly), ACK/reconnect argument provenance, who-may-write scan of the offset field",
+ "C09": "go/cfg path queries + lockset dataflow + typed AST patterns (lock guard table, wake-on-progress/close must-pass-through, wait-shape dominance, mem/file sibling skeleton, ring-index clamp form)",
+ "C10": "path-sensitive byte-accounting balance per function, type-tag bijection tables, interval walk over length comparisons, terminator-check dominance, writer sequence checks",
+ "C11": "constant-table comparison with a generated CRC-64/Jones table, update-step shape, verification-site ordering and offset arithmetic, shift-width rule, trailer layout",
+ "C12": "wire-grammar extraction of writer and reader sides vs one reference grammar; constant tables across the three copies; typed AST patterns for event wiring and field copies; sibling arithmetic fingerprints of the duplicated compact-encoding decoders",
+ "C13": "recovery of the interpreter convention from getMatchKeys' AST, symbolic (polynomial) evaluation of its index arithmetic, comparison of all table entries with the Redis 5.0 key specs on closed forms, verdict wiring queries",
+ "C14": "symbolic evaluation of checkpoint field names on writer, reader and clearer; go/cfg queries for newest-wins, gates, defaults, clearing; error-discipline engine",
+ "C15": "constant-table comparison with a generated CRC-16/XMODEM table, update-step shape, CFG reachability query for first-'{'/first-'}' hash-tag scanning, range/prefix/filter checks",
+ "C16": "channel closure-chain and spawn scan, go/cfg queries (one reply per written key, TTL/db rules, fetch index alignment, pagination exits), error-discipline engine",
+ "C17": "typed AST patterns on the marshalled struct literals (base64 field discipline, one line per element), go/cfg queries (one message per entry, fan-out/fan-in completion)",
+ "C18": "go/cfg path queries + lockset dataflow + typed AST patterns (guard table, broadcast-on-progress/close, validity-before-data, range table, sibling skeleton, clamp form)",
+ "C19": "type reachability of password fields + interprocedural SSA value taint (go/ssa) from password sources to log/print/REST/json sinks; path-sensitive sanitizer totality; AST rule for the ill-typed package main",
+ "C20": "decision-table extraction of the node-state probe, go/cfg queries (selection guard, host partition per iteration path, bounded recursion, probe-all, use at start)",
 }
-PENDING_REASON = "rule set not implemented yet in this revision of the checker; see DESIGN.md for the planned structural clauses"
+NOTE = "Trusted: go/parser, go/types, go/cfg, go/ssa of golang.org/x/tools v0.29.0; the reference tables and grammars written in the checker from the Redis sources; the library semantics named in the evidence's trusted_base. The loader blanks exact duplicate const declarations in an in-memory overlay (the pinned tree has one) and tolerates type errors only in package redis-shake/main."
 
 def main():
     props = [json.loads(l)["id"] for l in open("/verif/properties.jsonl")]
+    desc = {d["ID"]: d for d in json.loads(subprocess.check_output(["/verif/bin/rscheck", "-describe"]))}
     checks, na = [], []
     for p in props:
-        if p in CLAIMED:
-            tech, text, note, ref = CLAIMED[p]
+        if p in desc and p in TECH:
+            d = desc[p]
+            text = ("Structural necessary conditions of the property, decided from /repo/src on every run (all control-flow paths of the anchored code). "
+                    + d["Explanation"] + " NOT decided: " + d["NotDecided"])
             checks.append({
                 "property_id": p,
                 "quick_cmd": f"./check.sh {p} quick",
                 "thorough_cmd": f"./check.sh {p} thorough",
                 "evidence_file": f"/verif/evidence/{p}.json",
-                "replay_cmd_template": f"./check.sh {p} quick  # replay file {{path}} names rule, construct and witness path",
+                "replay_cmd_template": f"./check.sh {p} quick  # the replay file {{path}} names rule, construct, position and witness path",
                 "engine": "rscheck",
-                "level_claimed": {"category": "other", "text": text, "design_ref": ref},
-                "level_note": note,
-                "technique": "static analysis: " + tech,
+                "level_claimed": {"category": "other", "text": text, "design_ref": f"DESIGN.md section 2, {p}"},
+                "level_note": NOTE,
+                "technique": "static analysis: " + TECH[p],
             })
         else:
-            na.append({"property_id": p, "reason": PENDING_REASON})
+            na.append({"property_id": p, "reason": "no rule set in this revision of the checker"})
     m = {
         "version": 1,
         "setup_cmd": "cd /verif/checker && GOFLAGS=-mod=mod GOPROXY=off GOSUMDB=off GOTOOLCHAIN=local GOWORK=off go build -o /verif/bin/rscheck ./cmd/rscheck",
-        "hooks": {"guard": "verif", "enable": "none: static analysis reads /repo/src as it is, no hooks or instrumentation exist",
+        "hooks": {"guard": "verif", "enable": "none: static analysis reads /repo/src as it is; no hooks or instrumentation exist in /repo",
                   "baseline_off_cmd": "cd /repo/src && go test -mod=mod -json -vet=off -count=1 -timeout 25m ./...",
                   "source_commits": [], "add_only": True},
-        "engines": [{"name": "rscheck", "path": "/verif/checker", "serves_properties": sorted(CLAIMED),
-                     "kind_free_text": "repository-specific static analyser (go/packages + go/types + go/cfg + go/ssa): per-property rule files over shared engines (path queries, locksets, typed AST patterns, constant tables, taint)"}],
+        "engines": [{"name": "rscheck", "path": "/verif/checker", "serves_properties": sorted(desc),
+                     "kind_free_text": "repository-specific static analyser (go/packages + go/types + go/cfg + go/ssa): per-property rule packages over shared engines (path queries, locksets, typed AST patterns, wire-grammar extraction, constant tables, arithmetic fingerprints, taint)"}],
         "checks": checks,
         "not_applicable": na,
-        "notes": "All claims are level 'other': structural necessary conditions of each property decided from the source on every run (see DESIGN.md). Exit 2 + UNDECIDED means the machinery lost an anchor and refuses to pass vacuously.",
+        "notes": "All claims are level 'other': structural necessary conditions of each property decided from the source on every run (DESIGN.md). No property is declared wholly not applicable; each check's level text lists the clauses it does not decide. Exit 2 + UNDECIDED means the machinery lost an anchor or met a construct outside its enumerated idioms and refuses to pass vacuously. thorough = quick rules with _test.go files loaded + a sensitivity pass over curated variants of today's source (never affects the verdict).",
     }
     json.dump(m, open("/verif/MANIFEST.json", "w"), indent=1)
     print("claimed", len(checks), "not_applicable", len(na))
